@@ -235,7 +235,8 @@ fn c09_rec_string() {
 
 rdb_harness! {
 #[kani::unwind(6)]
-fn c09_rec_list() {
+fn c09_e2e_list() {
+    // end to end through the REAL engine (two chained rpush operations: expensive)
     let k: [u8; 1] = kani::any();
     let e: [u8; 2] = kani::any();
     let mut l = VecDeque::new();
@@ -258,59 +259,878 @@ fn c09_rec_list() {
 }
 }
 
-rdb_harness! {
+// ---------------------------------------------------------------- engine call recorder
+// For the container types the reader rebuilds a value through SEVERAL engine operations on heap
+// state (rpush per element, zadd per member, ...), which CBMC cannot chain within memory.  In the
+// harnesses below the engine operations called by the reader are replaced by recording stubs: the
+// harness decides that the reader issues exactly the calls that rebuild the saved value (same key,
+// same elements, same order, same scores bit for bit, expire(key, ttl) last and only if a TTL was
+// given).  What those operations do to an engine is the subject of the engine-level properties.
+const RMAX: usize = 6;
+const ILEN: usize = 26;
+#[derive(Clone, Copy)]
+struct Rec {
+    calls: usize,
+    kind: u8, // 0 none, then the ASCII tag of the first value call
+    mixed: bool, // value calls of different kinds, wrong db or wrong key
+    n: usize,
+    item: [[u8; ILEN]; RMAX],
+    item_len: [usize; RMAX],
+    score: [u64; RMAX],
+    id: [(u64, u64); RMAX],
+    nfields: [usize; RMAX],
+    expire_calls: usize,
+    expire_at_call: usize,
+    ttl: (u64, u32),
+    fail_at: usize, // engine call number that returns Err (0 = never)
+}
+static mut REC: Rec = Rec {
+    calls: 0, kind: 0, mixed: false, n: 0, item: [[0; ILEN]; RMAX], item_len: [0; RMAX], score: [0; RMAX],
+    id: [(0, 0); RMAX], nfields: [0; RMAX], expire_calls: 0, expire_at_call: 0, ttl: (0, 0), fail_at: 0,
+};
+static mut EXP_KEY: u8 = 0;
+
+fn rec_call(kind: u8, db: usize, key: &[u8]) -> bool {
+    unsafe {
+        REC.calls += 1;
+        if REC.kind == 0 {
+            REC.kind = kind;
+        }
+        if REC.kind != kind || db != 0 || key.len() != 1 || key[0] != EXP_KEY {
+            REC.mixed = true;
+        }
+        REC.fail_at != 0 && REC.calls == REC.fail_at
+    }
+}
+fn rec_item(v: &[u8]) {
+    unsafe {
+        assert!(REC.n < RMAX && v.len() <= ILEN, "harness shape: recorder capacity");
+        let i = REC.n;
+        let mut j = 0;
+        while j < v.len() {
+            REC.item[i][j] = v[j];
+            j += 1;
+        }
+        REC.item_len[i] = v.len();
+        REC.n += 1;
+    }
+}
+fn rec_err<T>() -> Result<T> {
+    Err(FerrousError::Storage(crate::error::StorageError::WrongType))
+}
+fn rec_set_string(_e: &StorageEngine, db: usize, key: Vec<u8>, value: Vec<u8>) -> Result<()> {
+    let f = rec_call(b's', db, &key);
+    rec_item(&value);
+    std::mem::forget(key);
+    std::mem::forget(value);
+    if f { rec_err() } else { Ok(()) }
+}
+fn rec_set_string_ex(_e: &StorageEngine, db: usize, key: Vec<u8>, value: Vec<u8>, ttl: Duration) -> Result<()> {
+    let f = rec_call(b's', db, &key);
+    rec_item(&value);
+    unsafe {
+        REC.expire_calls += 1;
+        REC.expire_at_call = REC.calls;
+        REC.ttl = (ttl.as_secs(), ttl.subsec_nanos());
+    }
+    std::mem::forget(key);
+    std::mem::forget(value);
+    if f { rec_err() } else { Ok(()) }
+}
+fn rec_rpush(_e: &StorageEngine, db: usize, key: Vec<u8>, elements: Vec<Vec<u8>>) -> Result<usize> {
+    let f = rec_call(b'l', db, &key);
+    let mut i = 0;
+    while i < elements.len() {
+        rec_item(&elements[i]);
+        i += 1;
+    }
+    std::mem::forget(key);
+    std::mem::forget(elements);
+    if f { rec_err() } else { Ok(0) }
+}
+fn rec_sadd(_e: &StorageEngine, db: usize, key: Vec<u8>, members: Vec<Vec<u8>>) -> Result<usize> {
+    let f = rec_call(b'S', db, &key);
+    let mut i = 0;
+    while i < members.len() {
+        rec_item(&members[i]);
+        i += 1;
+    }
+    std::mem::forget(key);
+    std::mem::forget(members);
+    if f { rec_err() } else { Ok(0) }
+}
+fn rec_hset(_e: &StorageEngine, db: usize, key: Vec<u8>, fvs: Vec<(Vec<u8>, Vec<u8>)>) -> Result<usize> {
+    let f = rec_call(b'h', db, &key);
+    let mut i = 0;
+    while i < fvs.len() {
+        rec_item(&fvs[i].0);
+        rec_item(&fvs[i].1);
+        i += 1;
+    }
+    std::mem::forget(key);
+    std::mem::forget(fvs);
+    if f { rec_err() } else { Ok(0) }
+}
+fn rec_zadd(_e: &StorageEngine, db: usize, key: Vec<u8>, member: Vec<u8>, score: f64) -> Result<bool> {
+    let f = rec_call(b'z', db, &key);
+    unsafe {
+        if REC.n < RMAX {
+            REC.score[REC.n] = score.to_bits();
+        }
+    }
+    rec_item(&member);
+    std::mem::forget(key);
+    std::mem::forget(member);
+    if f { rec_err() } else { Ok(true) }
+}
+fn rec_xadd_with_id(_e: &StorageEngine, db: usize, key: Vec<u8>, id: StreamId, fields: HashMap<Vec<u8>, Vec<u8>>) -> Result<StreamId> {
+    let f = rec_call(b'x', db, &key);
+    unsafe {
+        if REC.n < RMAX {
+            REC.id[REC.n] = (id.millis(), id.seq());
+            REC.nfields[REC.n] = fields.len();
+        }
+    }
+    // entry marker item (empty), then field, value pairs in map iteration order
+    rec_item(&[]);
+    for (fk, fv) in fields.iter() {
+        rec_item(fk);
+        rec_item(fv);
+    }
+    std::mem::forget(key);
+    std::mem::forget(fields);
+    if f { rec_err() } else { Ok(id) }
+}
+fn rec_expire(_e: &StorageEngine, db: usize, key: &[u8], ttl: Duration) -> Result<bool> {
+    unsafe {
+        REC.calls += 1;
+        if db != 0 || key.len() != 1 || key[0] != EXP_KEY {
+            REC.mixed = true;
+        }
+        REC.expire_calls += 1;
+        REC.expire_at_call = REC.calls;
+        REC.ttl = (ttl.as_secs(), ttl.subsec_nanos());
+        if REC.fail_at != 0 && REC.calls == REC.fail_at { rec_err() } else { Ok(true) }
+    }
+}
+fn item_is(i: usize, v: &[u8]) -> bool {
+    unsafe { REC.item_len[i] == v.len() && bytes_eq(&REC.item[i][..v.len()], v) }
+}
+
+macro_rules! rec_harness {
+    ($(#[$m:meta])* fn $name:ident() $body:block) => {
+        rdb_harness! {
+            #[kani::stub(StorageEngine::set_string, rec_set_string)]
+            #[kani::stub(StorageEngine::set_string_ex, rec_set_string_ex)]
+            #[kani::stub(StorageEngine::rpush, rec_rpush)]
+            #[kani::stub(StorageEngine::sadd, rec_sadd)]
+            #[kani::stub(StorageEngine::hset, rec_hset)]
+            #[kani::stub(StorageEngine::zadd, rec_zadd)]
+            #[kani::stub(StorageEngine::xadd_with_id, rec_xadd_with_id)]
+            #[kani::stub(StorageEngine::expire, rec_expire)]
+            $(#[$m])*
+            fn $name() $body
+        }
+    };
+}
+
+/// an arbitrary TTL as read_key_value_with_expiry may pass it on
+fn any_ttl() -> Option<Duration> {
+    if kani::any() {
+        let ms: u64 = kani::any();
+        Some(Duration::from_millis(ms))
+    } else {
+        None
+    }
+}
+
+/// reader side with recorder: type byte asserted, then read_key_value_with_type with `ttl`
+fn load_record_rec<const OP: u8>(bytes: &[u8], st: &Arc<StorageEngine>, key: u8, ttl: Option<Duration>, value_calls: usize) {
+    unsafe {
+        EXP_KEY = key;
+    }
+    let mut rd = RdbReader::new(bytes);
+    let op = match rd.read_byte() {
+        Ok(b) => b,
+        Err(e) => {
+            std::mem::forget(e);
+            assert!(false, "record has no type byte");
+            return;
+        }
+    };
+    assert!(op == OP, "type byte written for this value type");
+    let r = ManuallyDrop::new(rd.read_key_value_with_type(st, 0, OP, ttl));
+    assert!(r.is_ok(), "a written record must load");
+    assert!(rd.reader.is_empty(), "the record is consumed exactly");
+    unsafe {
+        assert!(!REC.mixed, "every engine call targets db 0, the saved key, one value type");
+        match ttl {
+            None => {
+                assert!(REC.expire_calls == 0, "no TTL invented");
+                assert!(REC.calls == value_calls, "number of engine calls");
+            }
+            Some(d) => {
+                assert!(REC.expire_calls == 1, "TTL applied exactly once");
+                assert!(REC.ttl == (d.as_secs(), d.subsec_nanos()), "TTL passed on unchanged");
+                assert!(REC.expire_at_call == REC.calls, "TTL applied by the last engine call (after the value exists)");
+                assert!(REC.calls == value_calls + 1, "number of engine calls");
+            }
+        }
+    }
+}
+
+rec_harness! {
+#[kani::unwind(6)]
+fn c09_rec_list() {
+    let k: u8 = kani::any();
+    let e: [u8; 2] = kani::any();
+    let mut l = VecDeque::new();
+    l.push_back(vec![e[0]]);
+    l.push_back(vec![e[1]]);
+    let v = ManuallyDrop::new(Value::List(l));
+    let out = save_record::<16>(&[k], &v, None);
+    mk_store!(st);
+    let ttl = any_ttl();
+    load_record_rec::<1>(&out.buf[..out.n], &st, k, ttl, 2);
+    unsafe {
+        assert!(REC.kind == b'l' && REC.n == 2, "two elements appended by rpush");
+        assert!(item_is(0, &e[0..1]) && item_is(1, &e[1..2]), "list elements restored in order");
+    }
+    kani::cover!(e[0] == e[1], "duplicate elements");
+    kani::cover!(ttl.is_some(), "with TTL");
+}
+}
+
+rec_harness! {
 #[kani::unwind(6)]
 fn c09_rec_set() {
-    let k: [u8; 1] = kani::any();
-    let e: [u8; 2] = kani::any();
-    kani::assume(e[0] != e[1]); // a set holds distinct members
+    let k: u8 = kani::any();
+    let e: [u8; 3] = kani::any();
+    // two members, distinct by construction (lengths 1 and 2)
     let mut s = HashSet::new();
     s.insert(vec![e[0]]);
-    s.insert(vec![e[1]]);
+    s.insert(vec![e[1], e[2]]);
     let v = ManuallyDrop::new(Value::Set(s));
-    let out = save_record::<16>(&k, &v, None);
+    let out = save_record::<16>(&[k], &v, None);
     mk_store!(st);
-    load_record::<2>(&out.buf[..out.n], &st);
-    st.vr_with(0, &k, |sv| match sv {
-        Some(StoredValue { value: Value::Set(s2), metadata }) => {
-            assert!(s2.len() == 2, "set cardinality restored");
-            assert!(s2.contains(&e[0..1]) && s2.contains(&e[1..2]), "set members restored");
-            assert!(metadata.expires_at.is_none(), "no TTL invented");
+    let ttl = any_ttl();
+    load_record_rec::<2>(&out.buf[..out.n], &st, k, ttl, 1);
+    unsafe {
+        assert!(REC.kind == b'S' && REC.n == 2, "one sadd with two members");
+        assert!((item_is(0, &e[0..1]) && item_is(1, &e[1..3])) || (item_is(1, &e[0..1]) && item_is(0, &e[1..3])), "set members restored");
+    }
+    kani::cover!(ttl.is_some(), "with TTL");
+}
+}
+
+rec_harness! {
+#[kani::unwind(6)]
+fn c09_rec_hash() {
+    let k: u8 = kani::any();
+    let f: [u8; 3] = kani::any();
+    let x: [u8; 2] = kani::any();
+    // two fields, distinct by construction (lengths 1 and 2)
+    let mut h = HashMap::new();
+    h.insert(vec![f[0]], vec![x[0]]);
+    h.insert(vec![f[1], f[2]], vec![x[1]]);
+    let v = ManuallyDrop::new(Value::Hash(h));
+    let out = save_record::<16>(&[k], &v, None);
+    mk_store!(st);
+    let ttl = any_ttl();
+    load_record_rec::<4>(&out.buf[..out.n], &st, k, ttl, 1);
+    unsafe {
+        assert!(REC.kind == b'h' && REC.n == 4, "one hset with two pairs");
+        let a = item_is(0, &f[0..1]) && item_is(1, &x[0..1]) && item_is(2, &f[1..3]) && item_is(3, &x[1..2]);
+        let b = item_is(2, &f[0..1]) && item_is(3, &x[0..1]) && item_is(0, &f[1..3]) && item_is(1, &x[1..2]);
+        assert!(a || b, "hash pairs restored");
+    }
+    kani::cover!(x[0] == x[1], "equal values");
+    kani::cover!(ttl.is_some(), "with TTL");
+}
+}
+
+// ---------------------------------------------------------------- C09 (d) TTL across save/load
+#[repr(C)]
+#[derive(Clone, Copy)]
+struct RawTs {
+    s: i64,
+    ns: u32,
+    pad: u32,
+}
+static mut WALL: (i64, u32) = (1_700_000_000, 0);
+/// Stub for `SystemTime::now`: wall clock set by the harness (Linux SystemTime = Timespec{i64,u32})
+fn wall_now() -> SystemTime {
+    unsafe { std::mem::transmute::<RawTs, SystemTime>(RawTs { s: WALL.0, ns: WALL.1, pad: 0 }) }
+}
+fn set_wall(s: i64, ns: u32) {
+    unsafe {
+        WALL = (s, ns);
+    }
+}
+fn any_wall() -> (i64, u32) {
+    let s: i64 = kani::any();
+    let ns: u32 = kani::any();
+    kani::assume(s >= 0 && s < (1i64 << 40) && ns < 1_000_000_000);
+    (s, ns)
+}
+fn ms_of(s: i64, ns: u32) -> u64 {
+    (s as u64) * 1000 + (ns / 1_000_000) as u64
+}
+
+static mut RK_CALLS: usize = 0;
+static mut RK_TYPE: u8 = 0;
+static mut RK_TTL: Option<Duration> = None;
+/// recording stub for RdbReader::read_key_value_with_type (the per-type arms have their own harnesses)
+fn rec_rkvt<R: Read>(_this: &mut RdbReader<R>, _st: &Arc<StorageEngine>, db: usize, value_type: u8, ttl: Option<Duration>) -> Result<()> {
+    unsafe {
+        RK_CALLS += 1;
+        RK_TYPE = value_type;
+        RK_TTL = ttl;
+        assert!(db == 0, "record loaded into the selected database");
+    }
+    Ok(())
+}
+
+/// wall clock in ms exactly as std converts it (same expression as in the code under test, so
+/// that CBMC shares the division circuits instead of having to prove two dividers equivalent)
+fn wall_ms() -> u64 {
+    wall_now().duration_since(UNIX_EPOCH).unwrap().as_millis() as u64
+}
+
+/// Save a string key with a TTL at wall time T_save, load it at wall time T_load >= T_save.
+/// Returns (expiry_ms written, now_ms at load).
+/// Writer spec: deadline_ms = floor(T_save in ms) + floor(ttl in ms).  Arithmetic consequence (not
+/// re-proved by the solver): exact deadline - 2 ms < deadline_ms <= exact deadline.
+fn ttl_roundtrip() -> (u64, u64) {
+    let k: u8 = kani::any();
+    let p: u8 = kani::any();
+    let (s1, n1) = any_wall();
+    let ttl_s: u64 = kani::any();
+    let ttl_n: u32 = kani::any();
+    kani::assume(ttl_s < (1u64 << 40) && ttl_n < 1_000_000_000);
+    let ttl = Duration::new(ttl_s, ttl_n);
+    set_wall(s1, n1);
+    let save_ms = wall_ms();
+    let v = ManuallyDrop::new(Value::String(vec![p]));
+    let out = save_record::<32>(&[k], &v, Some(ttl));
+    assert!(out.buf[0] == 0xFC, "expiry opcode precedes the record");
+    let mut eb = [0u8; 8];
+    let mut i = 0;
+    while i < 8 {
+        eb[i] = out.buf[1 + i];
+        i += 1;
+    }
+    let expiry_ms = u64::from_le_bytes(eb);
+    assert!(expiry_ms == save_ms + ttl.as_millis() as u64, "saved deadline (wall-clock ms, little endian) = save time + TTL");
+    assert!(out.buf[9] == 0, "string type byte follows the deadline");
+    // loader at T_load
+    let (s2, n2) = any_wall();
+    kani::assume(s2 > s1 || (s2 == s1 && n2 >= n1));
+    set_wall(s2, n2);
+    let now_ms = wall_ms();
+    mk_store!(st);
+    let mut rd = RdbReader::new(&out.buf[..out.n]);
+    let op = rd.read_byte();
+    assert!(matches!(op, Ok(0xFC)), "expiry opcode read back");
+    std::mem::forget(op);
+    let e = match rd.read_u64_le() {
+        Ok(e) => e,
+        Err(x) => {
+            std::mem::forget(x);
+            assert!(false, "deadline unreadable");
+            0
         }
-        _ => assert!(false, "key absent or of another type after load"),
-    });
-    no_ttl(&st, &k);
+    };
+    assert!(e == expiry_ms, "deadline read back unchanged");
+    let r = ManuallyDrop::new(rd.read_key_value_with_expiry(&st, 0, e));
+    assert!(r.is_ok(), "record with expiry loads");
+    (expiry_ms, now_ms)
+}
+
+rdb_harness! {
+#[kani::unwind(10)]
+#[kani::stub(std::time::SystemTime::now, wall_now)]
+#[kani::stub(RdbReader::read_key_value_with_type, rec_rkvt)]
+fn c09_ttl_future_rest() {
+    let (expiry_ms, now_ms) = ttl_roundtrip();
+    kani::assume(expiry_ms > now_ms); // region: deadline still in the future at load time
+    unsafe {
+        assert!(RK_CALLS == 1 && RK_TYPE == 0, "the string record is loaded once");
+        // remaining TTL = saved deadline - load time, in ms (multiplication-only formulation)
+        let x = expiry_ms - now_ms;
+        match RK_TTL {
+            Some(d) => {
+                let m = x.wrapping_sub(d.as_secs().wrapping_mul(1000));
+                assert!(m < 1000 && d.subsec_nanos() as u64 == m * 1_000_000, "remaining TTL = saved deadline - load time (ms)");
+            }
+            None => assert!(false, "TTL lost"),
+        }
+    }
+    kani::cover!(expiry_ms == now_ms + 1, "1 ms left");
+    kani::cover!(expiry_ms > now_ms + 1_000_000, "long TTL");
+}
+}
+
+rdb_harness! {
+#[kani::unwind(10)]
+#[kani::stub(std::time::SystemTime::now, wall_now)]
+#[kani::stub(RdbReader::read_key_value_with_type, rec_rkvt)]
+fn c09_ttl_elapsed_kf() {
+    let (expiry_ms, now_ms) = ttl_roundtrip();
+    kani::assume(expiry_ms <= now_ms); // region R: the deadline passed while the server was down
     kani::cover!(true, "reached");
+    unsafe {
+        // absent after the restart: either not loaded at all or loaded with a deadline that is not in the future
+        let zero = match RK_TTL {
+            Some(d) => d.as_secs() == 0 && d.subsec_nanos() == 0,
+            None => false,
+        };
+        assert!(RK_CALLS == 0 || zero, "a key whose deadline passed during downtime must not be loaded as a persistent key");
+    }
+}
+}
+
+// ================================================================ C10
+// ---------------------------------------------------------------- allocation obligation
+// "never an allocation sized by corrupt length fields": `vec![elem; n]` (alloc::vec::from_elem) and
+// Vec::with_capacity are wrapped; the wrapper compares n with the number of bytes present in the
+// input.  CHECK mode (c10_alloc_*): asserts n <= bytes present.  MODEL mode (totality harnesses):
+// builds the vector with a concrete size per case (a symbolic-size allocation does not fit into
+// CBMC) and, for n > bytes present, returns a vector longer than the whole input, so that the
+// following read_exact fails exactly as it does in the real code (Err, input drained).
+static mut ALLOC_LIMIT: usize = 0;
+static mut ALLOC_SEEN: bool = false;
+static mut ALLOC_CHECK: bool = false;
+const TOTAL_MAX: usize = 8; // no totality harness feeds more than TOTAL_MAX symbolic bytes to read_string
+fn from_elem_wrapped<T: Clone>(elem: T, n: usize) -> Vec<T> {
+    unsafe {
+        ALLOC_SEEN = true;
+        if ALLOC_CHECK {
+            assert!(n <= ALLOC_LIMIT, "allocation sized by a length field larger than the bytes present");
+        }
+    }
+    let mut k = 0;
+    while k <= TOTAL_MAX {
+        if n == k || k == TOTAL_MAX {
+            let mut v = Vec::new();
+            let mut j = 0;
+            while j < k {
+                v.push(elem.clone());
+                j += 1;
+            }
+            return v;
+        }
+        k += 1;
+    }
+    Vec::new()
+}
+fn with_capacity_wrapped<T>(n: usize) -> Vec<T> {
+    unsafe {
+        ALLOC_SEEN = true;
+        if ALLOC_CHECK {
+            assert!(n <= ALLOC_LIMIT, "reservation sized by a length field larger than the bytes present");
+        }
+    }
+    Vec::new()
+}
+
+rdb_harness! {
+#[kani::unwind(14)]
+#[kani::stub(alloc::vec::from_elem, from_elem_wrapped)]
+#[kani::stub(std::vec::Vec::with_capacity, with_capacity_wrapped)]
+fn c10_alloc_read_string_kf() {
+    // a string header of up to 5 bytes (1-, 2- or 5-byte length encoding) and nothing else
+    let data: [u8; 5] = kani::any();
+    unsafe {
+        ALLOC_LIMIT = data.len();
+        ALLOC_CHECK = true;
+    }
+    let mut rd = RdbReader::new(&data[..]);
+    let r = ManuallyDrop::new(rd.read_string());
+    kani::cover!(unsafe { ALLOC_SEEN }, "allocation site reached");
+}
+}
+
+// ---------------------------------------------------------------- loader totality
+// Arbitrary bytes, every prefix length (truncated files): Ok or Err; Kani's own checks decide
+// "no panic, no overflow, no out-of-bounds"; unwinding assertions decide "no hang".
+// Decomposition (a symbolic-length vector per string does not fit into CBMC when several strings
+// are read in a loop):
+//   c10_total_read_string : REAL read_string / read_length on arbitrary bytes; contract: Ok(v) =>
+//                           the header and exactly v.len() <= bytes-present payload bytes were
+//                           consumed; Err => nothing is returned.
+//   c10_total_<type>      : REAL read_key_value_with_type with read_string replaced by a contract
+//                           stub that consumes exactly like read_string (same Ok/Err, same reader
+//                           position) and returns a 1-byte vector (first payload byte, 0 if empty).  In the
+//                           string/set/hash/zset arms and the non-stream list arm string contents
+//                           are only handed to engine operations (stubs here); the one place where
+//                           content steers control flow, the stream-marker branch of the list arm,
+//                           has its own harness with the real read_string (c10_total_stream).
+//   c10_loop_trunc    : REAL load_into loop with the per-record function stubbed (Ok or Err).
+static mut T_CALLS: usize = 0;
+static mut T_FAIL_AT: usize = 0;
+fn t_res<T>(ok: T) -> Result<T> {
+    unsafe {
+        T_CALLS += 1;
+        if T_FAIL_AT != 0 && T_CALLS == T_FAIL_AT {
+            return Err(FerrousError::Storage(crate::error::StorageError::WrongType));
+        }
+    }
+    Ok(ok)
+}
+fn t_set_string(_e: &StorageEngine, _db: usize, key: Vec<u8>, value: Vec<u8>) -> Result<()> {
+    std::mem::forget((key, value));
+    t_res(())
+}
+fn t_set_string_ex(_e: &StorageEngine, _db: usize, key: Vec<u8>, value: Vec<u8>, _ttl: Duration) -> Result<()> {
+    std::mem::forget((key, value));
+    t_res(())
+}
+fn t_rpush(_e: &StorageEngine, _db: usize, key: Vec<u8>, elements: Vec<Vec<u8>>) -> Result<usize> {
+    std::mem::forget((key, elements));
+    t_res(0)
+}
+fn t_sadd(_e: &StorageEngine, _db: usize, key: Vec<u8>, members: Vec<Vec<u8>>) -> Result<usize> {
+    std::mem::forget((key, members));
+    t_res(0)
+}
+fn t_hset(_e: &StorageEngine, _db: usize, key: Vec<u8>, fvs: Vec<(Vec<u8>, Vec<u8>)>) -> Result<usize> {
+    std::mem::forget((key, fvs));
+    t_res(0)
+}
+fn t_zadd(_e: &StorageEngine, _db: usize, key: Vec<u8>, member: Vec<u8>, _score: f64) -> Result<bool> {
+    std::mem::forget((key, member));
+    t_res(true)
+}
+fn t_xadd_with_id(_e: &StorageEngine, _db: usize, key: Vec<u8>, id: StreamId, fields: HashMap<Vec<u8>, Vec<u8>>) -> Result<StreamId> {
+    std::mem::forget((key, fields));
+    t_res(id)
+}
+fn t_expire(_e: &StorageEngine, _db: usize, _key: &[u8], _ttl: Duration) -> Result<bool> {
+    t_res(true)
+}
+
+/// contract stub for read_string (see above)
+fn read_string_contract<R: Read>(this: &mut RdbReader<R>) -> Result<Vec<u8>> {
+    let len = this.read_length()?;
+    let mut first = 0u8;
+    let mut i = 0usize;
+    while i < len {
+        let b = this.read_byte()?; // fails as soon as the input is exhausted, as read_exact does
+        if i == 0 {
+            first = b;
+        }
+        i += 1;
+    }
+    Ok(vec![first]) // always one byte (0 for an empty payload): a concrete length keeps the marker comparison decidable
+}
+
+macro_rules! total_harness {
+    (#[kani::unwind($u:expr)] $(#[kani::stub($a:path, $b:path)])* fn $name:ident() $body:block) => {
+        #[kani::proof]
+        #[kani::unwind($u)]
+        #[kani::stub(alloc::fmt::format, fmt_stub)]
+        #[kani::stub(RdbReader::read_exact, read_exact_nofmt)]
+        #[kani::stub(std::time::Instant::now, crate::verif_common::now_fixed)]
+        #[kani::stub(catch_unwind, cu_stub)]
+        #[kani::stub(StorageEngine::set_string, t_set_string)]
+        #[kani::stub(StorageEngine::set_string_ex, t_set_string_ex)]
+        #[kani::stub(StorageEngine::rpush, t_rpush)]
+        #[kani::stub(StorageEngine::sadd, t_sadd)]
+        #[kani::stub(StorageEngine::hset, t_hset)]
+        #[kani::stub(StorageEngine::zadd, t_zadd)]
+        #[kani::stub(StorageEngine::xadd_with_id, t_xadd_with_id)]
+        #[kani::stub(StorageEngine::expire, t_expire)]
+        #[kani::stub(alloc::vec::from_elem, from_elem_wrapped)]
+        #[kani::stub(std::vec::Vec::with_capacity, with_capacity_wrapped)]
+        #[kani::stub(std::time::SystemTime::now, wall_now)]
+        $(#[kani::stub($a, $b)])*
+        fn $name() $body
+    };
+}
+
+total_harness! {
+#[kani::unwind(10)]
+fn c10_total_read_string() {
+    let data: [u8; 7] = kani::any();
+    let n: usize = kani::any();
+    kani::assume(n <= 7);
+    unsafe {
+        ALLOC_LIMIT = n;
+        ALLOC_CHECK = false;
+    }
+    let mut rd = RdbReader::new(&data[..n]);
+    let r = ManuallyDrop::new(rd.read_string());
+    let left = rd.reader.len();
+    match &*r {
+        Ok(v) => {
+            let hdr = if data[0] >> 6 == 0 { 1 } else if data[0] >> 6 == 1 { 2 } else { 5 };
+            assert!(left <= n && n - left == hdr + v.len(), "Ok: header and exactly v.len() payload bytes consumed");
+            let mut i = 0;
+            while i < v.len() {
+                assert!(v[i] == data[hdr + i], "Ok: payload bytes returned verbatim");
+                i += 1;
+            }
+        }
+        Err(_) => assert!(left <= n, "Err: reader position within the input"),
+    }
+    kani::cover!(matches!(&*r, Ok(v) if v.len() == 3), "3-byte string read");
+    kani::cover!(r.is_err(), "truncated string refused");
+}
+}
+
+fn total_record<const N: usize>(op: u8) {
+    let data: [u8; N] = kani::any();
+    let n: usize = kani::any();
+    kani::assume(n <= N);
+    let fail_at: usize = kani::any();
+    kani::assume(fail_at <= 3);
+    unsafe {
+        ALLOC_LIMIT = n;
+        ALLOC_CHECK = false;
+        T_FAIL_AT = fail_at;
+    }
+    let db: usize = kani::any();
+    mk_store!(st);
+    let mut rd = RdbReader::new(&data[..n]);
+    let ttl = any_ttl();
+    let r = ManuallyDrop::new(rd.read_key_value_with_type(&st, db, op, ttl));
+    kani::cover!(r.is_ok(), "some record loads");
+    kani::cover!(r.is_err(), "some input is refused");
+    assert!(rd.reader.len() <= n, "reader position within the input");
+    if n == 0 {
+        assert!(r.is_err(), "empty input is an error, not a silent success");
+    }
+}
+
+total_harness! {
+#[kani::unwind(10)]
+fn c10_total_string() { total_record::<6>(0); }
+}
+total_harness! {
+#[kani::unwind(7)]
+#[kani::stub(RdbReader::read_string, read_string_contract)]
+fn c10_total_set() { total_record::<5>(2); }
+}
+total_harness! {
+#[kani::unwind(13)]
+#[kani::stub(RdbReader::read_string, read_string_contract)]
+fn c10_total_zset() { total_record::<11>(3); }
+}
+total_harness! {
+#[kani::unwind(7)]
+#[kani::stub(RdbReader::read_string, read_string_contract)]
+fn c10_total_hash() { total_record::<5>(4); }
+}
+
+fn cut_read_string<R: Read>(_this: &mut RdbReader<R>) -> Result<Vec<u8>> {
+    assert!(false, "a value-type arm was entered for an unknown type byte");
+    Err(FerrousError::Io(String::new()))
+}
+total_harness! {
+#[kani::unwind(6)]
+#[kani::stub(RdbReader::read_string, cut_read_string)]
+fn c10_total_badtype() {
+    let op: u8 = kani::any();
+    kani::assume(op > 5);
+    let data: [u8; 4] = kani::any();
+    mk_store!(st);
+    let mut rd = RdbReader::new(&data[..]);
+    let r = ManuallyDrop::new(rd.read_key_value_with_type(&st, 0, op, None));
+    kani::cover!(true, "reached");
+    assert!(r.is_err(), "unknown value type is an error");
+    assert!(unsafe { T_CALLS } == 0, "nothing is stored for an unknown value type");
+}
+}
+
+// ---------------------------------------------------------------- load_into dispatch loop
+static mut D_CALLS: usize = 0;
+/// stub for the per-record function inside the dispatch harness: consumes nothing, Ok or Err
+fn d_rkvt<R: Read>(_this: &mut RdbReader<R>, _st: &Arc<StorageEngine>, _db: usize, _value_type: u8, _ttl: Option<Duration>) -> Result<()> {
+    unsafe {
+        D_CALLS += 1;
+    }
+    if kani::any() { Ok(()) } else { Err(FerrousError::Io(String::new())) }
+}
+fn d_header<R: Read>(_this: &mut RdbReader<R>) -> Result<()> {
+    Ok(())
+}
+total_harness! {
+#[kani::unwind(5)]
+#[kani::stub(RdbReader::read_string, read_string_contract)]
+#[kani::stub(RdbReader::read_key_value_with_type, d_rkvt)]
+#[kani::stub(RdbReader::read_header, d_header)]
+fn c10_loop_trunc() {
+    let data: [u8; 3] = kani::any();
+    let n: usize = kani::any();
+    kani::assume(n <= 3);
+    let (s, ns) = any_wall();
+    set_wall(s, ns);
+    mk_store!(st);
+    let mut rd = RdbReader::new(&data[..n]);
+    let r = ManuallyDrop::new(rd.load_into(&st));
+    // a file without the EOF opcode + 8 checksum bytes is never reported as loaded
+    assert!(r.is_err(), "at most 3 bytes after the header cannot hold EOF + checksum: load must fail, not succeed silently");
+    kani::cover!(unsafe { D_CALLS } >= 2, "two records dispatched");
+}
+}
+total_harness! {
+#[kani::unwind(11)]
+#[kani::stub(RdbReader::read_string, read_string_contract)]
+#[kani::stub(RdbReader::read_key_value_with_type, d_rkvt)]
+#[kani::stub(RdbReader::read_header, d_header)]
+fn c10_loop_eof() {
+    // [one arbitrary opcode byte + 1 operand byte] then EOF + checksum: the loop ends with Ok exactly at EOF
+    let x: [u8; 2] = kani::any();
+    let c: [u8; 8] = kani::any();
+    let data = [x[0], x[1], 0xFF, c[0], c[1], c[2], c[3], c[4], c[5], c[6], c[7]];
+    let (s, ns) = any_wall();
+    set_wall(s, ns);
+    mk_store!(st);
+    let mut rd = RdbReader::new(&data[..]);
+    let r = ManuallyDrop::new(rd.load_into(&st));
+    kani::cover!(r.is_ok(), "file accepted");
+    kani::cover!(r.is_err(), "file refused");
+    if r.is_ok() {
+        assert!(rd.reader.len() <= 8, "Ok only after an EOF opcode was consumed");
+    }
+}
+}
+
+// ---------------------------------------------------------------- C10 (g) writer under faults
+pub struct FailW {
+    calls: usize,
+    fail_at: usize,
+    failed: bool,
+    after_fail: usize,
+    bytes: u64,
+}
+impl Write for FailW {
+    fn write(&mut self, d: &[u8]) -> io::Result<usize> {
+        if self.failed {
+            self.after_fail += 1;
+        }
+        self.calls += 1;
+        if self.calls == self.fail_at {
+            self.failed = true;
+            return Err(io::Error::from(io::ErrorKind::Other));
+        }
+        self.bytes += d.len() as u64;
+        Ok(d.len())
+    }
+    /// whole buffers are accepted, so write_all is one write call (std's default write_all would
+    /// additionally decode the error representation for ErrorKind::Interrupted, which CBMC cannot
+    /// do on the bit-packed io::Error after a path merge)
+    fn write_all(&mut self, d: &[u8]) -> io::Result<()> {
+        if d.is_empty() {
+            return Ok(());
+        }
+        match self.write(d) {
+            Ok(_) => Ok(()),
+            Err(e) => Err(e),
+        }
+    }
+    fn flush(&mut self) -> io::Result<()> {
+        Ok(())
+    }
+}
+fn fail_writer(max_calls: usize) -> RdbWriter<FailW> {
+    let fail_at: usize = kani::any();
+    kani::assume(fail_at <= max_calls + 1); // 0 = never fails
+    RdbWriter::new(FailW { calls: 0, fail_at, failed: false, after_fail: 0, bytes: 0 })
+}
+fn fault_post(w: &RdbWriter<FailW>, r: &io::Result<()>, total_calls: usize) {
+    if w.writer.failed {
+        assert!(r.is_err(), "a failed write is reported as Err by the record writer");
+        assert!(w.writer.after_fail == 0, "no write is attempted after a failed one");
+    } else {
+        assert!(r.is_ok(), "no fault, no error");
+        assert!(w.writer.calls == total_calls, "number of write calls of a complete record");
+    }
+    assert!(w.bytes_written == w.writer.bytes, "bytes_written counts exactly the bytes accepted by the sink");
+    kani::cover!(w.writer.failed && w.writer.calls == total_calls, "fault at the last write");
+    kani::cover!(!w.writer.failed, "no fault");
+}
+
+rdb_harness! {
+#[kani::unwind(6)]
+fn c10_wfault_list() {
+    let e: [u8; 2] = kani::any();
+    let mut l = VecDeque::new();
+    l.push_back(vec![e[0]]);
+    l.push_back(vec![e[1]]);
+    let v = ManuallyDrop::new(Value::List(l));
+    let mut w = fail_writer(8);
+    let r = ManuallyDrop::new(w.write_key_value(b"k", &v, None));
+    fault_post(&w, &r, 8); // type, keylen, key, count, (len, payload) x 2
 }
 }
 
 rdb_harness! {
 #[kani::unwind(6)]
-fn c09_rec_hash() {
-    let k: [u8; 1] = kani::any();
+fn c10_wfault_hash() {
     let f: [u8; 2] = kani::any();
-    let x: [u8; 2] = kani::any();
-    kani::assume(f[0] != f[1]); // a hash holds distinct fields
     let mut h = HashMap::new();
-    h.insert(vec![f[0]], vec![x[0]]);
-    h.insert(vec![f[1]], vec![x[1]]);
+    h.insert(vec![f[0]], vec![f[1]]);
     let v = ManuallyDrop::new(Value::Hash(h));
-    let out = save_record::<16>(&k, &v, None);
-    mk_store!(st);
-    load_record::<4>(&out.buf[..out.n], &st);
-    st.vr_with(0, &k, |sv| match sv {
-        Some(StoredValue { value: Value::Hash(h2), metadata }) => {
-            assert!(h2.len() == 2, "hash size restored");
-            match (h2.get(&f[0..1]), h2.get(&f[1..2])) {
-                (Some(a), Some(b)) => assert!(bytes_eq(a, &x[0..1]) && bytes_eq(b, &x[1..2]), "hash values restored"),
-                _ => assert!(false, "hash field lost"),
-            }
-            assert!(metadata.expires_at.is_none(), "no TTL invented");
-        }
-        _ => assert!(false, "key absent or of another type after load"),
-    });
-    no_ttl(&st, &k);
-    kani::cover!(x[0] == x[1], "equal values");
+    let mut w = fail_writer(8);
+    let r = ManuallyDrop::new(w.write_key_value(b"k", &v, None));
+    fault_post(&w, &r, 8); // type, keylen, key, count, (len, field), (len, value)
 }
 }
 
+rdb_harness! {
+#[kani::unwind(10)]
+#[kani::stub(std::time::SystemTime::now, wall_now)]
+fn c10_wfault_string_ttl() {
+    let p: [u8; 2] = kani::any();
+    let v = ManuallyDrop::new(Value::String(p.to_vec()));
+    let ms: u32 = kani::any();
+    let mut w = fail_writer(7);
+    let r = ManuallyDrop::new(w.write_key_value(b"k", &v, Some(Duration::from_millis(ms as u64))));
+    fault_post(&w, &r, 7); // 0xFC, deadline, type, keylen, key, len, payload
+}
+}
+
+rdb_harness! {
+#[kani::unwind(10)]
+fn c10_wfault_frame() {
+    // the framing records of write_snapshot around the keys: selector, resize hint, EOF, checksum
+    let db: usize = kani::any();
+    kani::assume(db < 16);
+    let nkeys: usize = kani::any();
+    kani::assume(nkeys < 64);
+    let mut w = fail_writer(6);
+    let mut r: io::Result<()> = w.write_db_selector(db);
+    if r.is_ok() {
+        r = w.write_resize_db(nkeys, nkeys);
+    }
+    if r.is_ok() {
+        r = w.write_eof();
+    }
+    if r.is_ok() {
+        r = w.write_checksum();
+    }
+    let r = ManuallyDrop::new(r);
+    fault_post(&w, &r, 7); // FE db, FB n n, FF, checksum
+}
+}
+
+// ---------------------------------------------------------------- C09 (e) list starting with the stream marker
+rec_harness! {
+#[kani::unwind(28)]
+fn c09_list_marker_kf() {
+    // region R: a LIST whose first element equals the internal stream marker (concrete 25 bytes)
+    let k: u8 = kani::any();
+    let mut l = VecDeque::new();
+    l.push_back(b"__FERROUS_STREAM_MARKER__".to_vec());
+    let v = ManuallyDrop::new(Value::List(l));
+    let out = save_record::<40>(&[k], &v, None);
+    mk_store!(st);
+    kani::cover!(out.n == 30, "record written: type, key, count 1, 25-byte element");
+    load_record_rec::<1>(&out.buf[..out.n], &st, k, None, 1);
+    unsafe {
+        assert!(REC.kind == b'l' && REC.n == 1 && item_is(0, b"__FERROUS_STREAM_MARKER__"), "the list is restored as a list with its element");
+    }
+}
+}
